@@ -11,14 +11,21 @@ CFG = {
                   "producers, metadata tree), EncodeToAppSchema (dependencies sorted by the code's comparator on "
                   "Coq strings with decimal printing, payloads appended in id order) and ApplyAppSchema (replay of "
                   "SetInput in file order, FromJSON): decode(encode s) = s, encode(decode(encode s)) = encode s, "
-                  "numeric order of field.k names for all k, fresh ids; witnesses refuting the pinned comparator "
+                  "numeric order of field.k names for all k, fresh ids; the same round trip WITHOUT side condition for the "
+                  "repaired reader (decode_fixed: limited to the view's byteLength); continuation theorems (every "
+                  "further history runs identically on the reloaded graph, the result reloads again, the next id is "
+                  "fresh); a Gallina printer render : schema -> JSON text (encoding/json MarshalIndent layout, "
+                  "escaping; float text, base64 and type names delegated) with render(encode(decode(encode s))) = "
+                  "render(encode s), string escaping read back exactly (prefix-free, injective), integer text "
+                  "injective; witnesses refuting the pinned comparator "
                   "(11 array connections) and the File over-read. The model is tied to the Go code on every run by "
                   "evaluating it (vm_compute) on random histories run against the real instance and generator.App, "
                   "and the property is judged directly on the implementation's before/after structures, artifact "
                   "digests and save digests",
     "level_note": "Trusted: Coq kernel + vm_compute; hand-written model tied by differential correspondence only; JSON "
-                  "text of a schema is encoding/json's (sorted map keys) and is covered by the byte-for-byte S1 = S2 "
-                  "comparison, not by the model; parameter VALUES are opaque trees to the model (per-type "
+                  "text of a schema: the Gallina printer is compared byte for byte with App.Schema() on every history whose "
+                  "file is <= 12 KiB and whose values avoid floats and U+2028/9 (about half of them), the rest is "
+                  "covered by the byte-for-byte S1 = S2 comparison only; injectivity of the whole printer is not proved; parameter VALUES are opaque trees to the model (per-type "
                   "(de)serialisation is exercised by the harness only); PNG encoding is Go's",
     "technique": "Coq proof (invariant over operation histories, insertion-sort/replay commutation, decimal "
                  "injectivity) + vm_compute correspondence check",
